@@ -7,7 +7,7 @@
 (*   C15 AnsiSetting.valid / .parsable                                     *)
 (* Events of these operations do not touch the heap.                       *)
 (***************************************************************************)
-EXTENDS AnsiSegs
+EXTENDS AnsiSegs, Settings
 
 IsSubseq(a, b) ==      \* a is a (not necessarily contiguous) subsequence of b
   LET RECURSIVE Sub(_, _)
@@ -124,4 +124,55 @@ AsetC(e) ==
      \o Cl("C15.parsable_exact", ParsableInClaim(text),
            ParsableInClaim(text) => \A k \in DOMAIN e.o.parsable : (e.o.parsable[k] = 1) = ParsableG(text))
      \o Cl("C15.parsable_implies_valid", TRUE, \A k \in DOMAIN e.o.parsable : e.o.parsable[k] = 1 => ValidG(text))
+---------------------------------------------------------------------------
+(***************************************************************************)
+(* C14.  e.a.leaves: the flat sequence of leaves of the settings argument  *)
+(* (see Settings.tla); e.a.selfref = 1 when the harness made a list        *)
+(* contain itself; e.a.badtype = 1 when it inserted an unsupported object. *)
+(* e.o.res: text ids reported for the (single) character of                *)
+(* AnsiString('x', argument); e.o.q its rendering; e.o.rep_q the rendering *)
+(* of the class representative built from the expected texts.              *)
+(***************************************************************************)
+LeafDen(l) ==
+  CASE l.k = "name" ->
+         IF l.known = 0 THEN [err |-> "raise:ValueError", texts |-> << >>, claim |-> TRUE, doc |-> FALSE]
+         ELSE [err |-> "ok", texts |-> [i \in DOMAIN l.member |-> TextTable[l.member[i]]],
+               claim |-> Canon(l.v) = l.mname, doc |-> TRUE]
+    [] l.k = "ints" ->
+         IF \E i \in DOMAIN l.v : l.v[i] < 0 THEN [err |-> "raise:ValueError", texts |-> << >>, claim |-> TRUE, doc |-> FALSE]
+         ELSE [err |-> "ok", texts |-> GroupInts(l.v, 1), claim |-> IntsInClaim(l.v, 1),
+               doc |-> LET g == GroupInts(l.v, 1) IN \A i \in DOMAIN g : SemOf(g[i]).cls = "single"]
+    [] l.k = "verb" ->
+         IF l.v = << >> THEN [err |-> "raise:ValueError", texts |-> << >>, claim |-> TRUE, doc |-> FALSE]
+         ELSE [err |-> "ok", texts |-> << l.v >>, claim |-> TRUE, doc |-> FALSE]
+    [] l.k = "rgbs" ->
+         LET p == ParseColourString(l.v) IN
+         IF p.kind = "none" \/ ~p.ok THEN [err |-> "raise:ValueError", texts |-> << >>, claim |-> p.kind = "none" \/ p.claim, doc |-> FALSE]
+         ELSE [err |-> "ok", texts |-> IF p.kind = "rgb" THEN RgbTexts(p.comp, p.args) ELSE C256Texts(p.comp, p.args[1]),
+               claim |-> p.claim, doc |-> TRUE]
+    [] l.k = "rgbc" ->
+         [err |-> "ok", texts |-> IF l.fn = "rgb" THEN RgbTexts(l.comp, l.args) ELSE C256Texts(l.comp, l.args[1]),
+          claim |-> (l.fn = "c256" => l.args[1] <= 255 /\ l.args[1] >= 0)
+                    /\ (l.fn = "rgb" /\ Len(l.args) = 1 => l.args[1] >= 0 /\ l.args[1] <= 16777215),
+          doc |-> TRUE]
+
+RECURSIVE CatTexts(_, _)
+CatTexts(dens, i) == IF i > Len(dens) THEN << >> ELSE dens[i].texts \o CatTexts(dens, i + 1)
+
+ScrubC(e) ==
+  LET dens == [i \in DOMAIN e.a.leaves |-> LeafDen(e.a.leaves[i])]
+      claim == \A i \in DOMAIN dens : dens[i].claim
+      errs == {dens[i].err : i \in DOMAIN dens} \ {"ok"}
+      wantErr == IF e.a.badtype = 1 THEN "raise:TypeError"
+                 ELSE IF e.a.selfref = 1 THEN "raise:ValueError"
+                 ELSE IF errs # {} THEN "raise:ValueError" ELSE "ok"
+      want == CatTexts(dens, 1)
+  IN Cl("C14.outcome", claim, claim => e.out = wantErr)
+  \o IF e.out # "ok" \/ wantErr # "ok" \/ ~claim THEN None ELSE
+     LET got == [i \in DOMAIN e.o.res |-> TextTable[e.o.res[i]]] IN
+        Cl("C14.same_settings", TRUE, got = want)
+     \o Cl("C14.same_rendering", TRUE, e.o.q = e.o.rep_q)
+     \o Cl("C15.documented_forms_parsable", \E i \in DOMAIN dens : dens[i].doc,
+           (\A i \in DOMAIN dens : dens[i].doc) =>
+              (e.o.valid = 1 /\ e.o.parsable = 1 /\ \A i \in DOMAIN e.o.res : Sem[e.o.res[i]].cls = "single"))
 =============================================================================
